@@ -57,7 +57,7 @@ def main(argv=None):
     wall = time.time() - t0
 
     known = findings.load()
-    rdir = os.path.join(env.VERIF, "replays", prop)
+    rdir = os.path.join(env.VERIF, "replays" if env.SRC_ROOT == "/repo" else os.path.join("scratch", "replays"), prop)
     new_lines, known_lines = [], []
     n_new = 0
     for sig, lst in sorted(stats.violations.items()):
@@ -107,7 +107,19 @@ def main(argv=None):
     )
     for ln in known_lines:
         print(ln)
+    confirmed = {}
     for p, sig, msg in new_lines:
+        if sig not in confirmed:
+            # re-execute the stored case without the explorer: it must fail again (determinism guard)
+            try:
+                with open(p) as f:
+                    _, again = mod.replay(json.load(f)["case"])
+            except Exception as e:  # noqa: BLE001
+                again = None
+                print(f"  note: replay of {p} raised {type(e).__name__}: {e}")
+            confirmed[sig] = again
+            if again is False:
+                print(f"  note: [{sig}] did not reproduce when replayed once more from {p} - possible nondeterminism")
         print(f"  [{sig}] {msg}")
         print(f"VIOLATION property={prop} replay={p}")
     if not ok:
